@@ -790,4 +790,101 @@ theorem tokStartTag_congr (cfg : Cfg) (s1 s2 : St) (h : EqT s1 s2) (name : Bytes
           exact ⟨rfl, ⟨rfl, c2.vm, rfl, c2.pending, rfl, rfl, c2.fault, c2.inv⟩⟩
   · exact ⟨rfl, h⟩
 
+/-! ## `handle_tag` from `startLex` -/
+
+/-- **(`handle_tag`, `startLex`)**: the closing chunk of an open text node, then the second half of the start-tag event —
+the start-tag token iff the hint's flags ask for it -/
+theorem tag_startLex (cfg : Cfg) : Y_startLex_tag cfg := by
+  intro d s ln ns f hJ ha hc hf hg hp input lx hv hst
+  have hstart : ∃ name h ns' as sc, lx.outline = .startTag name h ns' as sc := by
+    rcases isStart_cases lx.outline with ⟨_, x⟩ | ⟨h1, _⟩
+    · exact x
+    · rw [hst] at h1; cases h1
+  obtain ⟨name, h, ns', as, sc, ho⟩ := hstart
+  have hV := lexV_of_argsOK hv name h ns' as sc ho
+  have hmf : (startTag s ln ns).1.fault = none := by rw [Chunk.R.startTag_fault]; exact hJ.1.fault
+  unfold Disp.handleTag
+  obtain ⟨tokF, ⟨tt, p, htokF⟩, f1, f2, f3, f4⟩ := flushPendingText_full d
+  have hkF : (CtlEv.other tokF).WellKinded := by rw [htokF]; trivial
+  obtain ⟨o1, o2⟩ := eqT_other cfg (startTag s ln ns).1 hmf d.ctl.1 tokF d.textPending hc hkF
+  cases h0 : (tokIf cfg d.textPending d.ctl.1 tokF).2 with
+  | some e =>
+    rw [h0] at f4
+    rw [DRes.bind_err _ _ e f4]
+    exact postT_err _ e (Or.inl (o2 e h0))
+  | none =>
+    rw [h0] at f4
+    rw [DRes.bind_ok _ _ () f4]
+    have hc1 : EqT (startTag s ln ns).1 (d.flushPendingText (fullCtl cfg)).1.ctl.1 := by rw [f1]; exact o1 h0
+    have hg1 : (d.flushPendingText (fullCtl cfg)).1.gotFlagsFromHint = true := by rw [f3.gf]; exact hg
+    have hp1 : (d.flushPendingText (fullCtl cfg)).1.pendingAux = false := by rw [f3.pa]; exact hp
+    have hf1 : (d.flushPendingText (fullCtl cfg)).1.flags = f := by rw [f2]; exact hf
+    generalize (d.flushPendingText (fullCtl cfg)).1 = d1 at hc1 hg1 hp1 hf1 ⊢
+    rw [if_pos hg1]
+    rw [DRes.bind_ok _ _ () rfl]
+    dsimp only
+    obtain ⟨r1, r2, r3⟩ := resumeEmission_same ({ d1 with gotFlagsFromHint := false } : Disp (FullSt cfg)) lx
+    have hc3 : EqT (startTag s ln ns).1 (Disp.resumeEmission (fullCtl cfg) { d1 with gotFlagsFromHint := false } lx).ctl.1 := by
+      rw [r1]; exact hc1
+    have hi3 : Idle (Disp.resumeEmission (fullCtl cfg) { d1 with gotFlagsFromHint := false } lx) :=
+      ⟨by rw [r3.pa]; exact hp1, by rw [r3.gf]⟩
+    have hf3 : (Disp.resumeEmission (fullCtl cfg) { d1 with gotFlagsFromHint := false } lx).flags = f := by
+      rw [r2]; exact hf1
+    generalize Disp.resumeEmission (fullCtl cfg) { d1 with gotFlagsFromHint := false } lx = d3 at hc3 hi3 hf3 ⊢
+    obtain ⟨p1, p2⟩ := produceTag_start_fullV d3 input lx name h ns' as sc ho
+    have hsp : ∀ info, startPhase s ln ns info = ((startTag s ln ns).1, .ok f) := by
+      intro info; simp only [startPhase, ha]
+    cases hb1 : f.nextStartTag with
+    | false =>
+      obtain ⟨q1, q2, q3⟩ := p1 (by rw [hf3]; exact hb1)
+      rw [DRes.bind_ok _ _ () q1]
+      obtain ⟨c1, _⟩ := (J2_evInv cfg).start s ln ns ⟨input, as, sc⟩ [] [] ns' sc [] ⟨0, 0⟩ 0 hJ
+      have hce : ctlStep cfg s (.start ln ns ⟨input, as, sc⟩ (.startTag [] [] ns' sc [] ⟨0, 0⟩ 0)) = ((startTag s ln ns).1, none) := by
+        simp only [ctlStep, hsp, tokIf, hb1, Bool.false_eq_true, if_false]
+      have hJm : J2 cfg (startTag s ln ns).1 := by
+        have := c1 (by rw [hce])
+        rw [hce] at this
+        exact this
+      have hJ3 : J2 cfg (d3.produceTag (fullCtl cfg) input lx).1.ctl.1 := by
+        rw [q2]; exact J2_congr hc3 hJm
+      exact ⟨fun _ _ => ⟨q3.idle hi3, hJ3⟩, fun e he => by cases he⟩
+    | true =>
+      rcases p2 (by rw [hf3]; exact hb1) with ⟨e, he, hq⟩ | ⟨n, attrs, raw, hat, hcs, q1, q2, q3⟩
+      · rw [DRes.bind_err _ _ e hq]
+        exact postT_err _ e (Or.inr he)
+      · have hf3' : d3.ctl.1.fault = none := by rw [hc3.fault]; exact hmf
+        have htok : ∀ m : St, m.fault = none →
+            token cfg m (.startTag n attrs ns' sc raw (srcOf lx.prevConsumed lx.raw) lx.prevConsumed) =
+            tokStartTag cfg m n attrs ns' sc raw (srcOf lx.prevConsumed lx.raw) lx.prevConsumed := by
+          intro m hm; unfold token; simp only [hm]
+        rw [htok _ hf3'] at q1 q3
+        obtain ⟨ce, cs⟩ := tokStartTag_congr cfg (startTag s ln ns).1 d3.ctl.1 hc3 n attrs ns' sc raw
+          (srcOf lx.prevConsumed lx.raw) lx.prevConsumed
+        obtain ⟨c1, c2⟩ := (J2_evInvV cfg).start s ln ns ⟨input, as, sc⟩ n attrs ns' sc raw (srcOf lx.prevConsumed lx.raw)
+          lx.prevConsumed hJ (hV.2 n attrs raw hat hcs)
+        have hce : ctlStep cfg s (.start ln ns ⟨input, as, sc⟩
+              (.startTag n attrs ns' sc raw (srcOf lx.prevConsumed lx.raw) lx.prevConsumed)) =
+            ((tokStartTag cfg (startTag s ln ns).1 n attrs ns' sc raw (srcOf lx.prevConsumed lx.raw) lx.prevConsumed).1,
+             (tokStartTag cfg (startTag s ln ns).1 n attrs ns' sc raw (srcOf lx.prevConsumed lx.raw) lx.prevConsumed).2.err) := by
+          simp only [ctlStep, hsp, tokIf, hb1, if_true, htok _ hmf]
+        cases hte : (tokStartTag cfg (startTag s ln ns).1 n attrs ns' sc raw (srcOf lx.prevConsumed lx.raw) lx.prevConsumed).2.err with
+        | some e =>
+          rw [ce, hte] at q3
+          rw [DRes.bind_err _ _ e q3]
+          rcases c2 e (by rw [hce, hte]) with hh | hh | hh
+          · exact postT_err _ e (Or.inl hh)
+          · exact hh.elim
+          · subst hh
+            exact (tokStartTag_not_rBase cfg _ n attrs ns' sc raw _ _ (by simp [srcOf]) hte).elim
+        | none =>
+          rw [ce, hte] at q3
+          rw [DRes.bind_ok _ _ () q3]
+          have hJb : J2 cfg (tokStartTag cfg (startTag s ln ns).1 n attrs ns' sc raw (srcOf lx.prevConsumed lx.raw) lx.prevConsumed).1 := by
+            have := c1 (by rw [hce, hte])
+            rw [hce] at this
+            exact this
+          have hJ4 : J2 cfg (d3.produceTag (fullCtl cfg) input lx).1.ctl.1 := by
+            rw [q1]; exact J2_congr cs hJb
+          exact ⟨fun _ _ => ⟨q2.idle hi3, hJ4⟩, fun e he => by cases he⟩
+
 end LolHtml.Thm.Full
